@@ -16,6 +16,7 @@ import (
 	"sort"
 	"strconv"
 	"strings"
+	"unsafe"
 
 	"github.com/EliCDavis/jbtf"
 	"github.com/EliCDavis/polyform/generator"
@@ -366,6 +367,9 @@ func messageView(inst *graph.Instance, id string, t *tyInfo) jv {
 
 // readEverything: the reads a client can make, none of which may change the graph
 func readEverything(inst *graph.Instance) {
+	if app, ok := appOf[inst]; ok {
+		app.Schema() // the edit server saves after every edit
+	}
 	artifacts(inst)
 	g := schema.App{}
 	inst.EncodeToAppSchema(&g, &jbtf.Encoder{})
@@ -421,9 +425,52 @@ func digest(b []byte) jv {
 	return jbig(new(big.Int).SetBytes(h[:]).String())
 }
 
-// saveInstance is generator.App.Schema() for an instance the harness edited (App keeps its own
-// instance private): same calls, same order.
+// ---- the application layer ----
+//
+// The edit server edits app.graphInstance through the Instance API and saves with App.Schema() (after every
+// edit: autosave). The harness does the same: the live graph of a history IS the instance of a generator.App,
+// and so is the reloaded one (fresh App, ApplySchema). App keeps its instance in an unexported field; the
+// harness reads that pointer (reflect + unsafe), nothing else.
+
+var appOf = map[*graph.Instance]*generator.App{}
+
+func instanceOf(app *generator.App) *graph.Instance {
+	f := reflect.ValueOf(app).Elem().FieldByName("graphInstance")
+	if !f.IsValid() || f.Type() != reflect.TypeOf((*graph.Instance)(nil)) {
+		panic("harness: generator.App no longer has a field graphInstance *graph.Instance")
+	}
+	inst := *(**graph.Instance)(unsafe.Pointer(f.UnsafeAddr()))
+	if inst == nil {
+		panic("harness: generator.App has no instance after Schema()")
+	}
+	return inst
+}
+
+// newApp: an application as cmd/polyform's edit mode holds it
+func newApp(d histDesc) (*generator.App, *graph.Instance) {
+	app := &generator.App{Name: d.AppName, Version: d.AppVersion, Description: d.AppDesc}
+	app.Schema() // creates the App's instance
+	inst := instanceOf(app)
+	appOf[inst] = app
+	return app, inst
+}
+
+func forget(insts ...*graph.Instance) {
+	for _, i := range insts {
+		delete(appOf, i)
+	}
+}
+
+// saveInstance: App.Schema() for the instance of an App; for a bare graph.Instance the same calls in the same
+// order with a fresh encoder (saveGraphLevel)
 func saveInstance(inst *graph.Instance, d histDesc) []byte {
+	if app, ok := appOf[inst]; ok {
+		return app.Schema()
+	}
+	return saveGraphLevel(inst, d)
+}
+
+func saveGraphLevel(inst *graph.Instance, d histDesc) []byte {
 	g := schema.App{
 		Name:        d.AppName,
 		Version:     d.AppVersion,
@@ -439,15 +486,14 @@ func saveInstance(inst *graph.Instance, d histDesc) []byte {
 	return data
 }
 
-// appReload: the file through the real generator.App: fresh App, ApplySchema, Schema.
-func appReload(file []byte) (out []byte, o outcome) {
+// plainReload: the file into a bare graph.Instance built from the harness's factory, saved at graph level
+func plainReload(file []byte, d histDesc) (out []byte, o outcome) {
 	o = guard(func() error {
-		app := generator.App{}
-		app.Schema() // creates the App's instance (ApplySchema needs it)
-		if err := app.ApplySchema(file); err != nil {
+		inst := graph.New(newFactory())
+		if err := inst.ApplyAppSchema(file); err != nil {
 			return err
 		}
-		out = app.Schema()
+		out = saveGraphLevel(inst, d)
 		return nil
 	})
 	return
